@@ -13,7 +13,6 @@ Variable sg : signature value.
 Variable env : wenv.
 Variable dc : deco value.
 Variable c : call value.
-Variable veq : value -> value -> bool.
 Hypothesis NV : s_varpos sg = false.      (* functions without *args *)
 
 Notation param := (param value).
@@ -25,7 +24,7 @@ Notation step_m := (step_m value is_none dc).
 Notation titem := (titem value is_none dc).
 Notation u_m := (u_m value is_none sg).
 Notation wc_ref := (wc_ref value is_none sg env dc).
-Notation vrun := (run value is_none veq rcfg rr sg env dc).
+Notation vrun := (run value is_none rcfg rr sg env dc).
 Notation gives := (caller_gives value sg dc c).
 Notation sdecl := (spec_declared value is_none sg dc c).
 Notation sundecl := (spec_undeclared value is_none dc).
@@ -402,7 +401,7 @@ Theorem run_meets_spec : forall is_async,
   end.
 Proof.
   intro is_async. unfold spec_outcome. destruct (snd (wc_ref c)) as [r|e pn] eqn:W.
-  - rewrite (ok_no_raise r W). rewrite (run_ref value is_none sg veq NV). cbn [snd]. rewrite W.
+  - rewrite (ok_no_raise r W). rewrite (run_ref value is_none sg NV). cbn [snd]. rewrite W.
     assert (NDr := result_nodup _ _ _ _ _ _ _ W).
     assert (SO := result_self_ok _ _ _ _ _ NV _ _ SG W).
     rewrite observe_normal by assumption.
@@ -415,7 +414,7 @@ Proof.
       unfold extras. rewrite (dget_filter_key value (fun k => negb (sig_has value sg k))), (extras_dget _ n D_nodup), in_sig_has, B.
       now destruct (sig_has value sg n).
     + now destruct (negb (s_varkw sg) && _).
-  - assert (R := raise_demanded _ _ W). rewrite (run_raise_of_wc _ _ _ _ _ NV _ _ _ _ _ W).
+  - assert (R := raise_demanded _ _ W). rewrite (run_raise_of_wc _ _ _ _ _ NV _ _ _ _ W).
     destruct (demanded_raises value is_none sg dc c) as [|x rs] eqn:Dr.
     + destruct R as (e' & pn' & [] & _).
     + exists e, pn. split; [reflexivity | exact R].
